@@ -193,7 +193,8 @@ def _case_symbols(sy, atoms, extra_strs=()):
     import re as _re
     strs = [atom_str(a) for a in atoms] + list(extra_strs)
     cands = []
-    uw = [n for n in list(sy.sym_terms) if n.startswith(("Option::<T>::unwrap_or(", "Option::<T>::map_or(")) and unwrap_or_cases(sy, n)]
+    uw = [n for n in list(sy.sym_terms) if n.startswith(("Option::<T>::unwrap_or(", "Option::<T>::map_or(", "Option::<T>::unwrap(Iterator::find(", "Option::<T>::unwrap(Iterator::position(",
+                                                         "Option::<T>::expect(Iterator::find(", "Option::<T>::expect(Iterator::position(")) and unwrap_or_cases(sy, n)]
     names = list(sy.phi_defs) + [n for n, (kind, P, k) in sy.divrem.items() if kind == "rem" and k <= 4] + uw + list(sy.b2i)
     for n in names:
         occ = [x for x in strs if n in x]
@@ -215,6 +216,18 @@ def unwrap_or_cases(sy, n):
     from .terms import unmut, short as _short
     t = unmut(t)
     t_orig = t
+    if t[0] == "call" and _short(t[1]) in ("Option::<T>::unwrap", "Option::<T>::expect") and t[2]:
+        # `it.find(P).unwrap()` / `it.position(P).unwrap()`: the found element / index, or the panic of `None.unwrap()`
+        # — two cases, like the loop that returns from inside or falls through
+        F = unmut(t[2][0])
+        if F[0] == "call" and _short(F[1]) in ("Iterator::find", "Iterator::position") and len(F[2]) == 2:
+            from .terms import strip as _st
+            fn_ = sy.name(F)
+            pay = ("field", ("downcast", F, "Some"), 0)
+            pp_ = sy.poly(pay)
+            payload = pp_ if pp_ is not None else Poly.sym(sy.name(pay))
+            return [(_st(t), payload, [("some", fn_)]), (_st(t), Poly.sym("Option::<T>::unwrap(None{})"), [("none", fn_)])]
+        return None
     if t[0] == "call" and _short(t[1]) == "Option::<T>::map_or" and len(t[2]) == 3:
         # X.map_or(d, f) is X.map(f).unwrap_or(d)
         t = ("call", "core::option::Option::<T>::unwrap_or", (("call", "core::option::Option::<T>::map", (t[2][0], t[2][2]), t[3]), t[2][1]), t[3])
@@ -568,15 +581,19 @@ def ret_table(prog, fn, alias=None, slice_param=None, only_ok=False, quantified=
                         sy.set_cases(None)
                 val0 = "|".join(sorted(vals))
                 ats0 = [atom_str(a) for a in ats]
+                rows_ = [(ats0, val0)]
                 if quantified:
+                    from . import quant as _quant
                     if rws is None:
-                        from . import quant as _quant
                         rws = _quant.row_rewrites(prog, an, sy)
-                    ats0, val0 = _quant_rewrite(rws, ats0, val0)
-                val = apply_alias(val0, alias)
-                if only_ok and not val.startswith("Ok{"):
-                    continue
-                out.append((sorted(apply_alias(a, alias) for a in ats0), val))
+                    rows_ = _quant.rewrite_rows(rws, ats0, val0)
+                for ats1, val1 in rows_:
+                    val = apply_alias(val1, alias)
+                    if only_ok and not val.startswith("Ok{"):
+                        continue
+                    out.append((sorted(apply_alias(a, alias) for a in ats1), val))
+    if quantified:
+        return [(list(a), v) for a, v in sorted(set((tuple(a), v) for a, v in out))]
     return sorted(out)
 
 
